@@ -14,6 +14,7 @@ From PV Require Export Model.DecompX.
 From PV Require Export Model.SourceX.
 From PV Require Export Model.LossX.
 From PV Require Model.SamplingX.   (* C09; qualified (step, run, init, ... stay out of the way) *)
+From PV Require Model.CacheMachineX.   (* C05; qualified *)
 
 Definition dispatch (f : Z) (x : sx) : sx :=
   match f with
@@ -47,5 +48,9 @@ Definition dispatch (f : Z) (x : sx) : sx :=
   | 900 => SamplingX.x_pipeline x | 901 => SamplingX.x_loop x | 902 => SamplingX.x_sim x | 903 => SamplingX.x_repair x
   | 904 => SamplingX.x_pyround x | 905 => SamplingX.x_hist x | 906 => SamplingX.x_samples_conv x
   | 907 => SamplingX.x_count_to_probs x | 912 => SamplingX.x_sim_old_code x | 908 => SamplingX.x_scale x
+  (* C05: 500 = SLOS cache machine (fixA, fixB, history), 501 = closed form of a configuration, 502 = MPS bond
+     dimension, 503 = iterator cache keys *)
+  | 500 => CacheMachineX.x_slos_run x | 501 => CacheMachineX.x_slos_spec x | 502 => CacheMachineX.x_mps_run x
+  | 503 => CacheMachineX.x_iter_run x
   | _ => L []
   end%Z.
